@@ -28,3 +28,19 @@ for name, (q, npar) in goldenreg.DEP.items():
 if not only or "regex_grammar" in only:
     from ctpgsa import gramrules
     print("regex_grammar                    %3d rules" % gramrules.freeze(fx))
+
+if not only or "loops" in only:
+    import json
+    loops = {}
+    for name in goldenreg.REGISTRY:
+        p = golden.path_for(name)
+        if not os.path.exists(p):
+            continue
+        g = json.load(open(p))
+        fns = golden.select(fx, g["function"], g.get("nparams"), enclosing=g.get("enclosing"), ptypes=g.get("ptypes"))
+        if g.get("param0_contains"):
+            fns = [f for f in fns if g["param0_contains"] in f.facts.T(f.o["params"][0]["t"])]
+        if fns:
+            loops[name] = golden.loop_count(fns[0])
+    json.dump(loops, open(os.path.join(golden.GOLDEN_DIR, "loops.json"), "w"), indent=0, sort_keys=True)
+    print("loops.json                       %3d functions" % len(loops))
